@@ -5,7 +5,7 @@ use heed::RoTxn;
 
 use arroy::Reader;
 
-use crate::decode::{decode_dump, walk_forest, DecodedIndex, Dump};
+use crate::decode::{walk_forest, DecodedIndex, Dump};
 use crate::exec::RawDb;
 use crate::model::{Staleness, World};
 use crate::plan::{Cfg, Profile};
@@ -25,8 +25,9 @@ pub fn dump_txn(txn: &RoTxn, db: RawDb) -> Dump {
 /// Returns (queries run, Err(description) on the first failure).
 pub fn verify_content(txn: &RoTxn, db: RawDb, world: &World, d: &Dump, cfg: &Cfg, salt: u64) -> (u64, Result<(), String>) {
     let mut qs = QueryStats { queries: 0 };
-    let dec = match decode_dump(d, &|i| world.metric_of(i)) {
-        Ok(x) => x,
+    let dec = match crate::decode::decode_dump_lenient(d, &|i| world.metric_of(i)) {
+        // value-level deviations of marks and version records are C16's findings, reported by the writer side
+        Ok((x, _)) => x,
         Err(e) => return (0, Err(format!("snapshot does not decode: {e}"))),
     };
     for im in &world.indexes {
